@@ -46,9 +46,11 @@ EXCEPTIONS = [
     ('lrtable::pager::gc', 'hash::set::HashSet<lrtable::StIdx<usize>', ['takes the first element'],
      'picks an arbitrary element of the work set; the result is the reachability closure `seen`, independent of visiting order'),
     ('lrtable::statetable::StateTable::new', 'hash::map::HashMap<cfgrammar::Symbol<StorageT>, lrtable::StIdx<StorageT>',
-     ['exit', 'index_mut', 'resolve_shift_reduce', 'push on alloc::vec::Vec<(cfgrammar::idxnewtype::TIdx<StorageT>, cfgrammar::idxnewtype::PIdx<StorageT>, lrtable::StIdx<StorageT>)'],
-     'iterates one state\'s outgoing edges: each symbol has its own cell; only the listing order of shift/reduce conflicts '
-     'depends on it, which the property leaves unspecified'),
+     ['exit', 'index_mut', 'resolve_shift_reduce on [usize]'],
+     'iterates one state\'s outgoing edges: each symbol writes only its own action/goto cell (offset computed from the '
+     'symbol), and the exits are internal-error panics; the list of shift/reduce conflicts that resolve_shift_reduce '
+     'also appends to is NOT covered by this exception - it has to be sorted after the loop (it is serialised into the '
+     'generated module)'),
     ('lrpar::cpctplus::simplify_repairs', 'hash::set::HashSet<alloc::vec::Vec<lrpar::parser::ParseRepair', ['extend into an ordered Vec', 'collect into an ordered Vec'],
      'drains the de-duplication set into a Vec that is then sorted; ties are documented as unordered (C06 fixes only avoid-insert/length order)'),
     ('lrlex::ctbuilder::CTLexerBuilder::build', 'hash::set::HashSet<alloc::string::String', ['print', 'collect into an ordered Vec', 'passed to'],
@@ -169,50 +171,104 @@ UNORDERED_TARGET = ('std::collections::hash::map::HashMap<', 'std::collections::
                     'vob::Vob<')
 
 
-def mut_target_ty(body, t):
-    """type behind the first `&mut` argument of a call (the thing it may modify)"""
+def mut_targets(body, t):
+    """[(root local, pointee type)] for EVERY `&mut` argument of a call (all the things it may modify)"""
+    out = []
     for a in t['args']:
         l = op_local(a)
         if l is not None and body.lty(l).startswith('&mut '):
-            return body.lty(l)[5:]
-    return None
+            out.append((body.op_root(a)[0], body.lty(l)[5:]))
+    return out
 
 
 def loop_effects(body, facts, loop_blocks, next_bb):
-    """order-sensitive effects inside a loop driven by the tainted iterator"""
+    """order-sensitive effects inside a loop driven by the tainted iterator: (kind, block, text, root local or None)"""
     eff = []
     for b in sorted(loop_blocks):
         t = body.term(b)
         if t['k'] == 'call' and b != next_bb:
             nm = cname(t)
             p = cpath(t) or ''
-            tgt = mut_target_ty(body, t)
+            tgts = mut_targets(body, t)
             if p.startswith('std::io::stdio::_eprint') or p.startswith('std::io::stdio::_print'):
-                eff.append(('print', b, p))
-            elif tgt is not None:
-                if tgt.startswith(UNORDERED_TARGET):
-                    continue
-                if tgt.startswith('core::iter') or 'iter::Iter' in tgt or tgt.startswith('std::collections::hash::') \
-                        or nm in ('next', 'deref_mut', 'index_mut', 'as_mut', 'borrow_mut'):
-                    continue  # driving some iterator / obtaining a place
-                if tgt.startswith('core::option::Option<') and nm in ('take', 'insert', 'get_or_insert_with'):
-                    eff.append(('mutate', b, '%s on %s' % (nm, tgt[:60])))
-                    continue
-                if tgt in ('usize', 'u64', 'u32', 'isize', 'i64', 'i32') and nm in ('add_assign',):
-                    continue
-                eff.append(('mutate', b, '%s on %s' % (nm, tgt[:70])))
+                eff.append(('print', b, p, None))
+            elif tgts:
+                for root, tgt in tgts:
+                    if tgt.startswith(UNORDERED_TARGET):
+                        continue
+                    if tgt.startswith('core::iter') or 'iter::Iter' in tgt or tgt.startswith('std::collections::hash::') \
+                            or nm in ('next', 'deref_mut', 'index_mut', 'as_mut', 'borrow_mut'):
+                        continue  # driving some iterator / obtaining a place
+                    if tgt.startswith('core::option::Option<') and nm in ('take', 'insert', 'get_or_insert_with'):
+                        eff.append(('mutate', b, '%s on %s' % (nm, tgt[:60]), root))
+                        continue
+                    if tgt in ('usize', 'u64', 'u32', 'isize', 'i64', 'i32') and nm in ('add_assign',):
+                        continue
+                    eff.append(('mutate', b, '%s on %s' % (nm, tgt[:70]), root))
             elif callee_of(t) is None:
-                eff.append(('indirect-call', b, ''))
+                eff.append(('indirect-call', b, '', None))
         # exits other than the iterator's own None test
         if b != next_bb:
             for s in body.succs(b):
                 if s not in loop_blocks:
                     tt = body.term(b)
                     # the switch on next()'s result lives in the block after next_bb
-                    eff.append(('exit', b, 'leaves the loop'))
+                    eff.append(('exit', b, 'leaves the loop', None))
         elif body.term(b)['k'] == 'return':
-            eff.append(('exit', b, 'returns'))
+            eff.append(('exit', b, 'returns', None))
     return eff
+
+
+def sorted_after_loop(body, vec_local, loop_blocks):
+    """the Vec is put into a canonical order once the loop is over: a sort* call on it outside the loop that every
+    later (non-loop) use is dominated by, and that itself is reached on every way out of the loop"""
+    if vec_local is None or not body.lty(vec_local).startswith('alloc::vec::Vec<'):
+        return False
+    uses = []
+    for b, t in body.calls():
+        for a in t['args']:
+            l = op_local(a)
+            if l is None:
+                continue
+            if body.root(l)[0] == vec_local:
+                uses.append((b, t))
+                break
+    outer = [(b, t) for b, t in uses if b not in loop_blocks]
+    sorts = [b for b, t in outer if (cname(t) or '').startswith('sort')]
+    if not sorts:
+        return False
+    exits = {s for b in loop_blocks for s in body.succs(b) if s not in loop_blocks}
+    for b, t in outer:
+        nm = cname(t) or ''
+        if nm.startswith('sort') or nm in ('deref_mut', 'as_mut_slice', 'drop'):
+            continue
+        # a use after the loop must come after a sort; a use before the loop (cannot be reached from the loop) is fine
+        if b in body.reachable(list(exits)) and not any(body.dominates(s, b) and s != b for s in sorts):
+            return False
+    # moves of the Vec into an aggregate / the return place must also come after a sort
+    for b in body.reachable(list(exits)):
+        for stt in body.blocks[b]['stmts']:
+            if stt['k'] != 'assign':
+                continue
+            if 'ref' in stt['rv'] or b in loop_blocks:
+                continue    # borrows are judged at the call they feed
+            if term_mentions_local(stt['rv'], vec_local) and not any(body.dominates(s, b) and s != b for s in sorts):
+                return False
+    return True
+
+
+def term_mentions_local(rv, l):
+    """does an rvalue (JSON) read local l directly"""
+    def ops(x):
+        if isinstance(x, dict):
+            if 'l' in x and 'p' in x and x['l'] == l:
+                yield x
+            for v in x.values():
+                yield from ops(v)
+        elif isinstance(x, list):
+            for v in x:
+                yield from ops(v)
+    return any(True for _ in ops(rv))
 
 
 def classify(body, facts, bb, t, st):
@@ -253,13 +309,21 @@ def classify(body, facts, bb, t, st):
             eff = loop_effects(body, facts, lb - {test_bb}, cb)
             # exits: allow only the test block
             eff = [e for e in eff if not (e[0] == 'exit' and e[1] == test_bb)]
+            # pushes on a Vec that is sorted once the loop is over do not keep the visiting order
+            kept = []
+            for e in eff:
+                if e[0] == 'mutate' and sorted_after_loop(body, e[3], lb):
+                    notes.append('%s, sorted after the loop' % e[2])
+                else:
+                    kept.append(e)
+            eff = kept
             for e in eff:
                 problems.append('loop body: %s %s (line %s)' % (e[0], e[2], body.term(e[1]).get('line')))
             if not eff:
                 notes.append('for-loop with order-insensitive body')
         elif nm in ('collect', 'from_iter', 'extend', 'extend_from_slice', 'append'):
             if nm == 'extend':
-                target = mut_target_ty(body, ct) or ''
+                target = (mut_targets(body, ct) or [(None, '')])[0][1]
             else:
                 target = ' '.join(cc['args'][-1:]) if nm == 'collect' else (cc.get('self_ty') or '')
                 if nm == 'collect':
@@ -327,6 +391,15 @@ def exception_for(body, st, problems):
     return None
 
 
+def uncovered(body, st, problems):
+    """the problems a listed exception for this function/container does NOT cover"""
+    fn = strip_generics(body.root_parent or body.path)
+    for f, sub, needles, reason in EXCEPTIONS:
+        if f == fn and sub in st:
+            return [p for p in problems if not any(n in p for n in needles)]
+    return []
+
+
 def r151(facts, res):
     R = 'R15.1'
     n = 0
@@ -354,6 +427,9 @@ def r151(facts, res):
                     nexc += 1
                     res.ok(R, key, loc_of(body, bb), 'listed exception: ' + reason)
                 else:
+                    unc = uncovered(body, st, problems)
+                    if unc:
+                        desc = '; '.join(unc[:3]) + ' (the rest of this loop is a listed exception)'
                     res.bad(R, key, loc_of(body, bb),
                             'iteration order of a RandomState hash container reaches an ordered result: ' + desc,
                             {'function': body.path, 'container': st, 'problems': problems})
